@@ -449,6 +449,10 @@ class MainTransformer(object):
         if type_node is not None:
             result.ctype = type_node.ctype
             result.complete_ctype = type_node.complete_ctype
+        if not result.resolved and result.ctype is None:
+            # Values known from GType data only (signals) have no ctype;
+            # keep the user string to report the unresolved type with.
+            result.ctype = type_str
         return result
 
     def _get_position(self, func, param):
